@@ -397,6 +397,26 @@ func run(r *mon.Run) {
 				name := key(e)
 				e.ResponseHeaders[name] = []string{e.ResponseHeaders[name][0] + "x"}
 			})
+			// respellings an HTTP library would call insignificant: the format signs the bytes of the value
+			for wsName, ws := range map[string][2]string{"trailing-space": {"", " "}, "leading-space": {" ", ""}, "leading-tab": {"\t", ""}, "trailing-tab": {"", "\t"}, "both": {" ", " "}} {
+				ws := ws
+				edit("resp-header-value-"+wsName+"="+name0, func(e *signedexchange.Exchange) {
+					name := key(e)
+					v := append([]string{}, e.ResponseHeaders[name]...)
+					v[len(v)-1] = ws[0] + v[len(v)-1] + ws[1]
+					e.ResponseHeaders[name] = v
+				})
+			}
+			edit("resp-header-value-case="+name0, func(e *signedexchange.Exchange) {
+				name := key(e)
+				v := append([]string{}, e.ResponseHeaders[name]...)
+				if up := strings.ToUpper(v[0]); up != v[0] {
+					v[0] = up
+				} else {
+					v[0] = strings.ToLower(v[0]) + "z"
+				}
+				e.ResponseHeaders[name] = v
+			})
 			edit("resp-header-value-append="+name0, func(e *signedexchange.Exchange) {
 				name := key(e)
 				e.ResponseHeaders[name] = append(e.ResponseHeaders[name], "extra")
